@@ -456,6 +456,15 @@ class ExprEmitter(ExpressionWriter):
     def visit_CharNode(self, node):
         self.put(str(ord(node.value)))
 
+    def visit_TupleNode(self, node):
+        # the stock writer renders the one-element tuple (x,) as (x)
+        items = node.subexpr_nodes()
+        self.put("(")
+        self.comma_separated_list(items)
+        if len(items) == 1:
+            self.put(",")
+        self.put(")")
+
     def visit_Node(self, node):
         raise DecyError("DeCy: unsupported expression node %s at %s" % (type(node).__name__, getattr(node, "pos", None)))
 
